@@ -56,3 +56,23 @@ pub fn parse_args(v: &[String]) -> Args {
     }
     a
 }
+
+
+/// integer literals harvested by the translator from the source files it translates
+/// (file named by VERIF_LITERALS_FILE, one hexadecimal value per line); used as extra boundary
+/// values by the generators, so that a constant written in the code is also tried as an input
+pub fn literal_pool() -> Vec<u64> {
+    let path = match std::env::var("VERIF_LITERALS_FILE") {
+        Ok(p) => p,
+        Err(_) => return Vec::new(),
+    };
+    let text = match std::fs::read_to_string(path) {
+        Ok(t) => t,
+        Err(_) => return Vec::new(),
+    };
+    let mut v: Vec<u64> = text.lines().filter_map(|l| u64::from_str_radix(l.trim(), 16).ok()).collect();
+    v.sort();
+    v.dedup();
+    v.truncate(400);
+    v
+}
